@@ -917,4 +917,857 @@ theorem stepK_toward (sg xe : UInt64) (C1 : U128) (f : UInt32) (S E : Nat) (hs :
       rw [← Nat.add_assoc]
       exact pack_bits _ _ _ _ S E _ hs hS hxe (by omega) (by simp only [UInt64.toNat_sub, UInt64.toNat_one]; omega) (by omega)
 
+/-! ## 6. The general path, and `bid128_nextup` on finite non-zero operands -/
+
+/-- exponent field and coefficient after the final step: `away` from zero or towards zero, from the scaled
+coefficient `c` with biased exponent `E` -/
+def stepBits (away : Bool) (E c : Nat) : Nat :=
+  if away then (if c + 1 = P34 then (E + 1) * 2^113 + P33 else E * 2^113 + (c + 1))
+  else (if E ≠ 0 ∧ c = P33 then (E - 1) * 2^113 + (P34 - 1) else E * 2^113 + (c - 1))
+
+/-- the number of zeros the coefficient `C` with biased exponent `E` is padded with -/
+def padBy (C E : Nat) : Nat := min (34 - ndigits C) E
+
+theorem ndigits_le_34 {C : Nat} (h0 : 0 < C) (hlt : C < P34) : ndigits C ≤ 34 := by
+  rw [ndigits_le_iff h0]; exact hlt
+
+/-- **the general path** (digit count, scaling, step, repacking) on a coefficient `0 < C < 10^34` with biased
+exponent `E` and sign bit `S`: the pattern of sign, stepped exponent and stepped coefficient; no panic. -/
+theorem generalK_spec (away : Bool) (sg xe : UInt64) (C1 : U128) (f : UInt32) (S E : Nat)
+    (hs : sg.toNat = S * 2^63) (hS : S ≤ 1) (hxe : xe.toNat = E * 2^49) (hE : E < 12288)
+    (hpos : 0 < val128 C1) (hlt : val128 C1 < P34) :
+    generalK away sg xe C1 f =
+      .ok (ofBits (S * 2^127 + stepBits away (E - padBy (val128 C1) E) (val128 C1 * 10 ^ padBy (val128 C1) E)), f) := by
+  have hq34 := ndigits_le_34 hpos hlt
+  have hq1 := ndigits_pos hpos
+  have hCq := lt_pow_ndigits (val128 C1)
+  have h113 : val128 C1 < 2^113 := by clear hCq; simp only [P34] at hlt; omega
+  have hE14 : E < 2^14 := by clear hCq; omega
+  unfold generalK padBy
+  obtain ⟨Q, hQ, hdc⟩ := digit_count C1 (fun q1 => scaleK q1 xe C1 (fun x_exp C1 => stepK away sg x_exp C1 f)) hpos h113
+  rw [hdc]
+  generalize ndigits (val128 C1) = q at *
+  have hn : q + min (34 - q) E ≤ 34 := by clear hCq; omega
+  have hE1 : E - min (34 - q) E + 1 < 2^14 := by clear hCq; omega
+  have hE2 : E - min (34 - q) E < 2^14 := by clear hCq; omega
+  obtain ⟨xe', C1', hsc, hv', hxe'⟩ := scaleK_spec Q xe C1 (fun x_exp C1 => stepK away sg x_exp C1 f)
+    q E hQ hq1 hq34 hxe hE14 hCq
+  rw [hsc]
+  have hlt' : val128 C1' < P34 := by
+    rw [hv']; exact scaled_lt _ _ _ hCq hn
+  have hpos' : 0 < val128 C1' := by
+    rw [hv']; exact Nat.mul_pos hpos (Nat.pow_pos (by decide))
+  unfold stepBits
+  cases away
+  · rw [stepK_toward sg xe' C1' f S _ hs hS hxe' hE2 hpos' hlt', hv']
+    simp only [Bool.false_eq_true, if_false]
+  · rw [stepK_away sg xe' C1' f S _ hs hS hxe' hE1 hlt', hv']
+    simp only [if_true]
+
+
+/-! ### the spec-level model in the same terms -/
+
+/-- `normalize` in terms of the biased exponent -/
+theorem normalize_eq (C E : Nat) (hq : ndigits C ≤ 34) :
+    normalize C ((E : Int) - 6176) = (C * 10 ^ padBy C E, ((E - padBy C E : Nat) : Int) - 6176) := by
+  unfold normalize padBy eMin
+  generalize ndigits C = q at *
+  simp only []
+  by_cases h : (34 : Int) - (q : Int) ≤ (E : Int) - 6176 - -6176
+  · rw [if_pos h]
+    have e1 : ((34 : Int) - (q : Int)).toNat = min (34 - q) E := by omega
+    rw [e1]
+    congr 1
+    omega
+  · rw [if_neg h]
+    have e1 : ((E : Int) - 6176 - -6176).toNat = min (34 - q) E := by omega
+    rw [e1]
+    congr 1
+    omega
+
+theorem ten_dvd_scaled (C n : Nat) (hn : 0 < n) : 10 ∣ C * 10 ^ n := by
+  obtain ⟨m, rfl⟩ : ∃ m, n = m + 1 := ⟨n - 1, by omega⟩
+  exact ⟨C * 10 ^ m, by rw [Nat.pow_succ]; ring⟩
+
+/-- the scaled coefficient is `10^34 − 1` only if nothing was padded -/
+theorem scaled_max (C n : Nat) (h : C * 10 ^ n + 1 = P34) : n = 0 := by
+  by_contra hn
+  obtain ⟨m, hm⟩ := ten_dvd_scaled C n (by omega)
+  simp only [P34] at h
+  omega
+
+/-- `next_up` of a positive finite non-zero datum that is not the largest one: one unit away from zero -/
+theorem encode_nextUp_pos (C E : Nat) (hpos : 0 < C) (hlt : C < P34) (hE : E < 12288) (hmax : ¬ (C + 1 = P34 ∧ E = 12287)) :
+    encode (nextUpD (.fin false C ((E : Int) - 6176))) = stepBits true (E - padBy C E) (C * 10 ^ padBy C E) := by
+  rw [Dec.C17Adjacent.nextUp_fin_pos C _ (by omega), normalize_eq C E (ndigits_le_34 hpos hlt)]
+  unfold stepBits eMax
+  simp only [if_true]
+  have hle : padBy C E ≤ E := by unfold padBy; omega
+  generalize hn : padBy C E = n at *
+  by_cases h1 : C * 10 ^ n + 1 = P34
+  · have hn0 := scaled_max C n h1
+    subst hn0
+    simp only [Nat.pow_zero, Nat.mul_one, Nat.sub_zero] at h1 ⊢
+    have hE' : E ≠ 12287 := fun h => hmax ⟨h1, h⟩
+    rw [if_pos h1, if_pos h1, if_neg (by omega)]
+    simp only [encode, signBit, Bool.false_eq_true, if_false]
+    rw [show ((((E : Nat) : Int) - 6176 + 1 + 6176).toNat) = E + 1 from by omega]
+    omega
+  · rw [if_neg h1, if_neg h1]
+    simp only [encode, signBit, Bool.false_eq_true, if_false]
+    rw [show ((((E - n : Nat) : Int) - 6176 + 6176).toNat) = E - n from by omega]
+    omega
+
+/-- `next_up` of a negative finite non-zero datum: one unit towards zero -/
+theorem encode_nextUp_neg (C E : Nat) (hpos : 0 < C) (hlt : C < P34) :
+    encode (nextUpD (.fin true C ((E : Int) - 6176))) = 2^127 + stepBits false (E - padBy C E) (C * 10 ^ padBy C E) := by
+  rw [Dec.C17Adjacent.nextUp_fin_neg C _ (by omega), normalize_eq C E (ndigits_le_34 hpos hlt)]
+  unfold stepBits eMin
+  simp only [Bool.false_eq_true, if_false]
+  have hle : padBy C E ≤ E := by unfold padBy; omega
+  generalize hn : padBy C E = n at *
+  generalize C * 10 ^ n = c
+  by_cases h1 : E - n ≠ 0 ∧ c = P33
+  · rw [if_pos h1, if_pos ⟨h1.2, by omega⟩]
+    simp only [encode, signBit, if_true]
+    rw [show ((((E - n : Nat) : Int) - 6176 - 1 + 6176).toNat) = E - n - 1 from by omega]
+    omega
+  · rw [if_neg h1, if_neg (fun h => h1 ⟨by omega, h.1⟩)]
+    simp only [encode, signBit, if_true]
+    rw [show ((((E - n : Nat) : Int) - 6176 + 6176).toNat) = E - n from by omega]
+    omega
+
+
+/-! ### `bid128_nextup`, finite non-zero operands -/
+
+theorem exp_toNat (w : UInt64) : (w &&& c_MASK_EXP).toNat = (w.toNat / 2^49 % 2^14) * 2^49 :=
+  toNat_and_field w _ 14 49 (by decide)
+
+theorem coeff_val (x : U128) : val128 ⟨x.w0, x.w1 &&& c_MASK_COEFF⟩ = sigW x.w1.toNat x.w0.toNat := by
+  unfold val128 sigW
+  rw [show c_MASK_COEFF = 0x1ffffffffffff from rfl, coeff_hi]
+
+theorem u128_beq (x : U128) (a b : UInt64) : (x.w1 == a && x.w0 == b) = decide (x = ⟨b, a⟩) := by
+  obtain ⟨x0, x1⟩ := x
+  rw [Bool.eq_iff_iff]
+  simp only [Bool.and_eq_true, beq_iff_eq, decide_eq_true_eq, U128.mk.injEq]
+  exact And.comm
+
+theorem coeff_nonzero (x : U128) (hpos : 0 < sigW x.w1.toNat x.w0.toNat) :
+    ((⟨x.w0, x.w1 &&& c_MASK_COEFF⟩ : U128).w1 == 0 && (⟨x.w0, x.w1 &&& c_MASK_COEFF⟩ : U128).w0 == 0) = false := by
+  rw [zero128]
+  show decide (val128 ⟨x.w0, x.w1 &&& c_MASK_COEFF⟩ = 0) = false
+  rw [coeff_val, decide_eq_false_iff_not]
+  omega
+
+/-- the fields of a finite non-zero operand make up its high word -/
+theorem hi_fields (h : Nat) (hh : h < 2^64) : h = (h / 2^63 % 2) * 2^63 + (h / 2^49 % 2^14) * 2^49 + h % 2^49 := by omega
+
+/-- **`bid128_nextup` on finite non-zero operands** (canonical by necessity: every other finite pattern is a zero):
+the canonical encoding of `nextUpD`, no flag, no panic. -/
+theorem nextup_fin (x : U128) (f : UInt32) (hx : nzFin x) :
+    bid128_nextup x f = .ok (ofBits (encode (nextUpD (decode (bitsOf x)))), f) := by
+  obtain ⟨hd, hpos, hlt⟩ := nzFin_decode x hx
+  have hI := hx.1
+  have hS : x.w1.toNat / 2^61 % 4 ≠ 3 := fun h => hx.2 (Or.inl h)
+  have hh := x.w1.toNat_lt
+  have hl := x.w0.toNat_lt
+  rw [nextup_shape, special_test, if_neg (by simpa using hI), canonK_nz x _ hx, coeff_nonzero x hpos,
+    if_neg Bool.false_ne_true, u128_beq, u128_beq]
+  by_cases hmax : x = ⟨0x378d8e63ffffffff, 0x5fffed09bead87c0⟩
+  · rw [if_pos (by simpa using hmax), hmax]
+    exact congrArg (fun r => Except.ok (r, f)) (by decide +kernel)
+  rw [if_neg (by simpa using hmax)]
+  by_cases hmin : x = ⟨1, 0x8000000000000000⟩
+  · rw [if_pos (by simpa using hmin), hmin]
+    exact congrArg (fun r => Except.ok (r, f)) (by decide +kernel)
+  rw [if_neg (by simpa using hmin), hd]
+  have hE : x.w1.toNat / 2^49 % 2^14 < 12288 := by omega
+  rw [generalK_spec (x.w1 &&& c_MASK_SIGN == 0) (x.w1 &&& c_MASK_SIGN) (x.w1 &&& c_MASK_EXP) ⟨x.w0, x.w1 &&& c_MASK_COEFF⟩ f
+    (x.w1.toNat / 2^63 % 2) (x.w1.toNat / 2^49 % 2^14) (sign_toNat x.w1) (by omega)
+    (exp_toNat x.w1) hE (by rw [coeff_val]; exact hpos) (by rw [coeff_val]; exact hlt), coeff_val,
+    show c_MASK_SIGN = 0x8000000000000000 from rfl, sign_zero_test]
+  refine congrArg (fun r => Except.ok (ofBits r, f)) ?_
+  unfold negW
+  by_cases hs : x.w1.toNat / 2^63 % 2 = 0
+  · have hs' : ¬ x.w1.toNat / 2^63 % 2 = 1 := by omega
+    rw [decide_eq_false hs', decide_eq_true hs, hs, encode_nextUp_pos _ _ hpos hlt hE ?_]
+    · omega
+    · rintro ⟨h1, h2⟩
+      apply hmax
+      have e1 : x.w1.toNat % 2^49 * 2^64 + x.w0.toNat = 9999999999999999999999999999999999 :=
+        Nat.eq_sub_of_add_eq h1
+      have := hi_fields _ hh
+      rw [u128_eq_iff]
+      simp only [UInt64.toNat_ofNat]
+      omega
+  · have hs' : x.w1.toNat / 2^63 % 2 = 1 := by omega
+    rw [decide_eq_true hs', decide_eq_false hs, hs', encode_nextUp_neg _ _ hpos hlt, Nat.one_mul]
+
+
+theorem nzFin_not_nan (x : U128) (hx : nzFin x) : (decode (bitsOf x)).isNaN = false := by
+  rw [(nzFin_decode x hx).1]; rfl
+
+/-- **`bid128_nextup`, all 2^128 patterns, every incoming status word**: the result is the canonical encoding of
+`nextUpD` of the decoded operand (NaN operand: its quieted canonical copy); `invalid` is or-ed into the status word
+iff the operand is a signalling NaN, nothing else is ever raised; the routine never panics. -/
+theorem nextup_spec (x : U128) (f : UInt32) :
+    bid128_nextup x f = .ok (ofBits (encode (upD (decode (bitsOf x)))), nanFlags f (decode (bitsOf x))) := by
+  by_cases h : special (decode (bitsOf x)) = true
+  · exact nextup_front x f h
+  · have hx : nzFin x := Classical.not_not.1 (fun hc => h ((special_iff x).2 hc))
+    rw [nextup_fin x f hx, upD_of_not_nan (nzFin_not_nan x hx), nanFlags_of_not_nan f (nzFin_not_nan x hx)]
+
+/-- non-NaN operands: exactly `encode (nextUpD d)`, status word unchanged -/
+theorem nextup_nonnan (x : U128) (f : UInt32) (h : (decode (bitsOf x)).isNaN = false) :
+    bid128_nextup x f = .ok (ofBits (encode (nextUpD (decode (bitsOf x)))), f) := by
+  rw [nextup_spec, upD_of_not_nan h, nanFlags_of_not_nan f h]
+
+-- 5 ↦ 5.000000000000000000000000000000001;  −5 ↦ −4.999999999999999999999999999999999;
+-- 9999999999999999999999999999999999E+10 ↦ 1000000000000000000000000000000000E+11;
+-- −1000000000000000000000000000000000E+10 ↦ −9999999999999999999999999999999999E+9;  +MAX ↦ +Inf;  −1E−6176 ↦ −0E−6176;
+-- the subnormal 1E−6170 (exponent field 6) can only be padded by six zeros
+example : bid128_nextup ⟨5, 0x3040000000000000⟩ 0 = .ok (⟨2001506101975056385, 3458472614410240992⟩, 0) := by rfl
+example : bid128_nextup ⟨5, 0x3040000000000000⟩ 0 = .ok (ofBits (encode (.fin false (5 * 10^33 + 1) (-33))), 0) := by
+  rw [nextup_nonnan _ _ (by decide +kernel)]; decide +kernel
+example : bid128_nextup ⟨5, 0xb040000000000000⟩ 0 = .ok (ofBits (encode (.fin true (5 * 10^33 - 1) (-33))), 0) := by
+  rw [nextup_nonnan _ _ (by decide +kernel)]; decide +kernel
+example : bid128_nextup ⟨0x378d8e63ffffffff, 0x3055ed09bead87c0⟩ 0 = .ok (ofBits (encode (.fin false (10^33) 11)), 0) := by
+  rw [nextup_nonnan _ _ (by decide +kernel)]; decide +kernel
+example : bid128_nextup ⟨0x38c15b0a00000000, 0xb054314dc6448d93⟩ 0 = .ok (ofBits (encode (.fin true (10^34 - 1) 9)), 0) := by
+  rw [nextup_nonnan _ _ (by decide +kernel)]; decide +kernel
+example : bid128_nextup ⟨0x378d8e63ffffffff, 0x5fffed09bead87c0⟩ 0 = .ok (ofBits (encode (.inf false)), 0) := by
+  rw [nextup_nonnan _ _ (by decide +kernel)]; decide +kernel
+example : bid128_nextup ⟨1, 0x8000000000000000⟩ 0 = .ok (ofBits (encode (.fin true 0 (-6176))), 0) := by
+  rw [nextup_nonnan _ _ (by decide +kernel)]; decide +kernel
+example : bid128_nextup ⟨1, 0x000c000000000000⟩ 0x3f = .ok (ofBits (encode (.fin false 1000001 (-6176))), 0x3f) := by
+  rw [nextup_nonnan _ _ (by decide +kernel)]; decide +kernel
+
+/-! ## 7. `bid128_nextdown` -/
+
+/-- flipping the sign of a datum flips bit 127 of its encoding -/
+theorem encode_negate (d : Datum) :
+    encode d.negate + (if d.neg then 2^127 else 0) = encode d + (if d.neg then 0 else 2^127) := by
+  cases d with
+  | fin s c e => cases s <;> simp only [Datum.negate, Datum.setSign, Datum.neg, encode, signBit, Bool.not_true, Bool.not_false,
+      Bool.false_eq_true, if_true, if_false] <;> omega
+  | inf s => cases s <;> simp only [Datum.negate, Datum.setSign, Datum.neg, encode, signBit, Bool.not_true, Bool.not_false,
+      Bool.false_eq_true, if_true, if_false] <;> omega
+  | nan s g p => cases s <;> simp only [Datum.negate, Datum.setSign, Datum.neg, encode, signBit, Bool.not_true, Bool.not_false,
+      Bool.false_eq_true, if_true, if_false] <;> omega
+
+/-- `next_up` of a non-zero finite datum keeps the sign -/
+theorem nextUpD_neg (s : Bool) (c : Nat) (e : Int) (hc : c ≠ 0) : (nextUpD (.fin s c e)).neg = s := by
+  cases s
+  · rw [Dec.C17Adjacent.nextUp_fin_pos c e hc]
+    split
+    · split <;> rfl
+    · rfl
+  · rw [Dec.C17Adjacent.nextUp_fin_neg c e hc]
+    split <;> rfl
+
+theorem negate_fin (s : Bool) (c : Nat) (e : Int) : (Datum.fin s c e).negate = .fin (!s) c e := rfl
+
+/-- `next_down` of a negative finite non-zero datum that is not the most negative one: one unit away from zero -/
+theorem encode_nextDown_neg (C E : Nat) (hpos : 0 < C) (hlt : C < P34) (hE : E < 12288) (hmax : ¬ (C + 1 = P34 ∧ E = 12287)) :
+    encode (nextDownD (.fin true C ((E : Int) - 6176))) = 2^127 + stepBits true (E - padBy C E) (C * 10 ^ padBy C E) := by
+  have h := encode_negate (nextUpD (.fin false C ((E : Int) - 6176)))
+  rw [nextUpD_neg _ _ _ (by omega), encode_nextUp_pos C E hpos hlt hE hmax] at h
+  unfold nextDownD
+  rw [negate_fin]
+  simp only [Bool.false_eq_true, if_false, Bool.not_true] at h ⊢
+  omega
+
+/-- `next_down` of a positive finite non-zero datum: one unit towards zero -/
+theorem encode_nextDown_pos (C E : Nat) (hpos : 0 < C) (hlt : C < P34) :
+    encode (nextDownD (.fin false C ((E : Int) - 6176))) = stepBits false (E - padBy C E) (C * 10 ^ padBy C E) := by
+  have h := encode_negate (nextUpD (.fin true C ((E : Int) - 6176)))
+  rw [nextUpD_neg _ _ _ (by omega), encode_nextUp_neg C E hpos hlt] at h
+  unfold nextDownD
+  rw [negate_fin]
+  simp only [if_true, Bool.not_false] at h ⊢
+  omega
+
+theorem sign_nonzero_test (w : UInt64) : (w &&& 0x8000000000000000 != 0) = decide (w.toNat / 2^63 % 2 = 1) := by
+  rw [bne, sign_zero_test, Bool.eq_iff_iff]
+  simp only [Bool.not_eq_true', decide_eq_false_iff_not, decide_eq_true_eq]
+  omega
+
+/-- **`bid128_nextdown` on finite non-zero operands**: the canonical encoding of `nextDownD`, no flag, no panic. -/
+theorem nextdown_fin (x : U128) (f : UInt32) (hx : nzFin x) :
+    bid128_nextdown x f = .ok (ofBits (encode (nextDownD (decode (bitsOf x)))), f) := by
+  obtain ⟨hd, hpos, hlt⟩ := nzFin_decode x hx
+  have hI := hx.1
+  have hS : x.w1.toNat / 2^61 % 4 ≠ 3 := fun h => hx.2 (Or.inl h)
+  have hh := x.w1.toNat_lt
+  have hl := x.w0.toNat_lt
+  rw [nextdown_shape, special_test, if_neg (by simpa using hI), canonK_nz x _ hx, coeff_nonzero x hpos,
+    if_neg Bool.false_ne_true, u128_beq, u128_beq]
+  by_cases hmax : x = ⟨0x378d8e63ffffffff, 0xdfffed09bead87c0⟩
+  · rw [if_pos (by simpa using hmax), hmax]
+    exact congrArg (fun r => Except.ok (r, f)) (by decide +kernel)
+  rw [if_neg (by simpa using hmax)]
+  by_cases hmin : x = ⟨1, 0⟩
+  · rw [if_pos (by simpa using hmin), hmin]
+    exact congrArg (fun r => Except.ok (r, f)) (by decide +kernel)
+  rw [if_neg (by simpa using hmin), hd]
+  have hE : x.w1.toNat / 2^49 % 2^14 < 12288 := by omega
+  rw [generalK_spec (x.w1 &&& c_MASK_SIGN != 0) (x.w1 &&& c_MASK_SIGN) (x.w1 &&& c_MASK_EXP) ⟨x.w0, x.w1 &&& c_MASK_COEFF⟩ f
+    (x.w1.toNat / 2^63 % 2) (x.w1.toNat / 2^49 % 2^14) (sign_toNat x.w1) (by omega)
+    (exp_toNat x.w1) hE (by rw [coeff_val]; exact hpos) (by rw [coeff_val]; exact hlt), coeff_val,
+    show c_MASK_SIGN = 0x8000000000000000 from rfl, sign_nonzero_test]
+  refine congrArg (fun r => Except.ok (ofBits r, f)) ?_
+  unfold negW
+  by_cases hs : x.w1.toNat / 2^63 % 2 = 1
+  · rw [decide_eq_true hs, hs, encode_nextDown_neg _ _ hpos hlt hE ?_, Nat.one_mul]
+    rintro ⟨h1, h2⟩
+    apply hmax
+    have e1 : x.w1.toNat % 2^49 * 2^64 + x.w0.toNat = 9999999999999999999999999999999999 :=
+      Nat.eq_sub_of_add_eq h1
+    have := hi_fields _ hh
+    rw [u128_eq_iff]
+    simp only [UInt64.toNat_ofNat]
+    omega
+  · have hs' : x.w1.toNat / 2^63 % 2 = 0 := by omega
+    rw [decide_eq_false hs, hs', encode_nextDown_pos _ _ hpos hlt]
+    omega
+
+/-- **`bid128_nextdown`, all 2^128 patterns, every incoming status word**: the result is the canonical encoding of
+`nextDownD` of the decoded operand (NaN operand: its quieted canonical copy); `invalid` is or-ed into the status word
+iff the operand is a signalling NaN, nothing else is ever raised; the routine never panics. -/
+theorem nextdown_spec (x : U128) (f : UInt32) :
+    bid128_nextdown x f = .ok (ofBits (encode (downD (decode (bitsOf x)))), nanFlags f (decode (bitsOf x))) := by
+  by_cases h : special (decode (bitsOf x)) = true
+  · exact nextdown_front x f h
+  · have hx : nzFin x := Classical.not_not.1 (fun hc => h ((special_iff x).2 hc))
+    rw [nextdown_fin x f hx, downD_of_not_nan (nzFin_not_nan x hx), nanFlags_of_not_nan f (nzFin_not_nan x hx)]
+
+/-- non-NaN operands: exactly `encode (nextDownD d)`, status word unchanged -/
+theorem nextdown_nonnan (x : U128) (f : UInt32) (h : (decode (bitsOf x)).isNaN = false) :
+    bid128_nextdown x f = .ok (ofBits (encode (nextDownD (decode (bitsOf x)))), f) := by
+  rw [nextdown_spec, downD_of_not_nan h, nanFlags_of_not_nan f h]
+
+-- 5 ↦ 4.999999999999999999999999999999999;  1000000000000000000000000000000000E+10 ↦ 9999999999999999999999999999999999E+9;
+-- −MAX ↦ −Inf;  +1E−6176 ↦ +0E−6176;  −9999999999999999999999999999999999E+10 ↦ −1000000000000000000000000000000000E+11
+example : bid128_nextdown ⟨5, 0x3040000000000000⟩ 0 = .ok (⟨2001506101975056383, 3458472614410240992⟩, 0) := by rfl
+example : bid128_nextdown ⟨5, 0x3040000000000000⟩ 0 = .ok (ofBits (encode (.fin false (5 * 10^33 - 1) (-33))), 0) := by
+  rw [nextdown_nonnan _ _ (by decide +kernel)]; decide +kernel
+example : bid128_nextdown ⟨0x38c15b0a00000000, 0x3054314dc6448d93⟩ 0 = .ok (ofBits (encode (.fin false (10^34 - 1) 9)), 0) := by
+  rw [nextdown_nonnan _ _ (by decide +kernel)]; decide +kernel
+example : bid128_nextdown ⟨0x378d8e63ffffffff, 0xdfffed09bead87c0⟩ 0 = .ok (ofBits (encode (.inf true)), 0) := by
+  rw [nextdown_nonnan _ _ (by decide +kernel)]; decide +kernel
+example : bid128_nextdown ⟨1, 0⟩ 7 = .ok (ofBits (encode (.fin false 0 (-6176))), 7) := by
+  rw [nextdown_nonnan _ _ (by decide +kernel)]; decide +kernel
+example : bid128_nextdown ⟨0x378d8e63ffffffff, 0xb055ed09bead87c0⟩ 0 = .ok (ofBits (encode (.fin true (10^33) 11)), 0) := by
+  rw [nextdown_nonnan _ _ (by decide +kernel)]; decide +kernel
+
+/-! ## 8. `bid128_nextafter`
+
+### the routine, cut into stages -/
+
+/-- NaN operands are answered; infinite operands are replaced by the canonical infinity of their sign -/
+def naFrontK (x_ y_ : U128) (pfpsf_ : UInt32) (k : U128 → U128 → Except String (U128 × UInt32)) :
+    Except String (U128 × UInt32) := do
+  let mut x : U128 := x_
+  let mut y : U128 := y_
+  let mut pfpsf : UInt32 := pfpsf_
+  let mut res : U128 := default
+  if (((((x.w1 &&& c_MASK_SPECIAL)) == c_MASK_SPECIAL)) || ((((y.w1 &&& c_MASK_SPECIAL)) == c_MASK_SPECIAL))) then
+    if (((x.w1 &&& c_MASK_NAN)) == c_MASK_NAN) then
+      if (((decide (((x.w1 &&& (0x3fffffffffff : UInt64))) > (0x314dc6448d93 : UInt64)))) || ((((((x.w1 &&& (0x3fffffffffff : UInt64))) == (0x314dc6448d93 : UInt64))) && ((decide (x.w0 > (0x38c15b09ffffffff : UInt64))))))) then
+        x := { x with w1 := (x.w1 &&& (0xffffc00000000000 : UInt64)) }
+        x := { x with w0 := (0 : UInt64) }
+      if (((x.w1 &&& c_MASK_SNAN)) == c_MASK_SNAN) then
+        pfpsf := (pfpsf ||| c_StatusFlags_BID_INVALID_EXCEPTION)
+        res := { res with w1 := (x.w1 &&& (0xfc003fffffffffff : UInt64)) }
+        res := { res with w0 := x.w0 }
+      else
+        res := { res with w1 := (x.w1 &&& (0xfc003fffffffffff : UInt64)) }
+        res := { res with w0 := x.w0 }
+        if (((y.w1 &&& c_MASK_SNAN)) == c_MASK_SNAN) then
+          pfpsf := (pfpsf ||| c_StatusFlags_BID_INVALID_EXCEPTION)
+      return (res, pfpsf)
+    else
+      if (((y.w1 &&& c_MASK_NAN)) == c_MASK_NAN) then
+        if (((decide (((y.w1 &&& (0x3fffffffffff : UInt64))) > (0x314dc6448d93 : UInt64)))) || ((((((y.w1 &&& (0x3fffffffffff : UInt64))) == (0x314dc6448d93 : UInt64))) && ((decide (y.w0 > (0x38c15b09ffffffff : UInt64))))))) then
+          y := { y with w1 := (y.w1 &&& (0xffffc00000000000 : UInt64)) }
+          y := { y with w0 := (0 : UInt64) }
+        if (((y.w1 &&& c_MASK_SNAN)) == c_MASK_SNAN) then
+          pfpsf := (pfpsf ||| c_StatusFlags_BID_INVALID_EXCEPTION)
+          res := { res with w1 := (y.w1 &&& (0xfc003fffffffffff : UInt64)) }
+          res := { res with w0 := y.w0 }
+        else
+          res := { res with w1 := (y.w1 &&& (0xfc003fffffffffff : UInt64)) }
+          res := { res with w0 := y.w0 }
+        return (res, pfpsf)
+      else
+        if (((x.w1 &&& c_MASK_ANY_INF)) == c_MASK_INF) then
+          x := { x with w1 := (x.w1 &&& (c_MASK_SIGN ||| c_MASK_INF)) }
+          x := { x with w0 := (0 : UInt64) }
+        if (((y.w1 &&& c_MASK_ANY_INF)) == c_MASK_INF) then
+          y := { y with w1 := (y.w1 &&& (c_MASK_SIGN ||| c_MASK_INF)) }
+          y := { y with w0 := (0 : UInt64) }
+  k x y
+
+/-- a finite operand that is a zero in a non-canonical encoding is replaced by the canonical zero of its sign and exponent -/
+def naCanonK (x_ : U128) (k : U128 → Except String (U128 × UInt32)) : Except String (U128 × UInt32) := do
+  let mut x : U128 := x_
+  let mut x_exp : UInt64 := default
+  if (((x.w1 &&& c_MASK_ANY_INF)) != c_MASK_INF) then
+    if (((x.w1 &&& (0x6000000000000000 : UInt64))) == (0x6000000000000000 : UInt64)) then
+      x_exp := (((x.w1 <<< 2)) &&& c_MASK_EXP)
+      x := { x with w1 := (((x.w1 &&& c_MASK_SIGN)) ||| x_exp) }
+      x := { x with w0 := (0 : UInt64) }
+    else
+      x_exp := (x.w1 &&& c_MASK_EXP)
+      if ((decide (((x.w1 &&& c_MASK_COEFF)) > (0x1ed09bead87c0 : UInt64))) || (((((x.w1 &&& c_MASK_COEFF)) == (0x1ed09bead87c0 : UInt64)) && (decide (x.w0 > (0x378d8e63ffffffff : UInt64)))))) then
+        x := { x with w1 := (((x.w1 &&& c_MASK_SIGN)) ||| x_exp) }
+        x := { x with w0 := (0 : UInt64) }
+      else
+        pure ()
+  k x
+
+/-- the comparisons and the choice of the result; `x y` the operands as canonicalised so far, `xnswp ynswp` the operands
+as given -/
+def naChooseK (x y xnswp ynswp : U128) (pfpsf_ : UInt32) (k : U128 → UInt32 → Except String (U128 × UInt32)) :
+    Except String (U128 × UInt32) := do
+  let mut pfpsf : UInt32 := pfpsf_
+  let mut res : U128 := default
+  let mut tmp_fpsf : UInt32 := default
+  let mut res1 : Bool := default
+  let mut res2 : Bool := default
+  tmp_fpsf := pfpsf
+  let t__1 ← bid128_quiet_equal xnswp ynswp pfpsf
+  pfpsf := t__1.2
+  res1 := t__1.1
+  let t__2 ← bid128_quiet_greater xnswp ynswp pfpsf
+  pfpsf := t__2.2
+  res2 := t__2.1
+  pfpsf := tmp_fpsf
+  if res1 then
+    res := { res with w1 := (((x.w1 &&& (0x7fffffffffffffff : UInt64))) ||| ((y.w1 &&& (0x8000000000000000 : UInt64)))) }
+    res := { res with w0 := x.w0 }
+  else
+    if res2 then
+      let t__3 ← bid128_nextdown xnswp pfpsf
+      pfpsf := t__3.2
+      res := t__3.1
+    else
+      let t__4 ← bid128_nextup xnswp pfpsf
+      pfpsf := t__4.2
+      res := t__4.1
+  k res pfpsf
+
+/-- the flags: overflow when a finite operand gives an infinite result, underflow when the result differs from the operand
+and is below the least normal number in magnitude -/
+def naFlags (x xnswp res : U128) (pfpsf_ : UInt32) : Except String (U128 × UInt32) := do
+  let mut pfpsf : UInt32 := pfpsf_
+  let mut tmp1 : U128 := default
+  let mut tmp2 : U128 := default
+  let mut tmp3 : U128 := default
+  let mut tmp_fpsf : UInt32 := default
+  let mut res1 : Bool := default
+  let mut res2 : Bool := default
+  if (((((x.w1 &&& c_MASK_SPECIAL)) != c_MASK_SPECIAL)) && ((((res.w1 &&& c_MASK_SPECIAL)) == c_MASK_SPECIAL))) then
+    pfpsf := (pfpsf ||| c_StatusFlags_BID_INEXACT_EXCEPTION)
+    pfpsf := (pfpsf ||| c_StatusFlags_BID_OVERFLOW_EXCEPTION)
+  tmp1 := { tmp1 with w1 := (0x314dc6448d93 : UInt64) }
+  tmp1 := { tmp1 with w0 := (0x38c15b0a00000000 : UInt64) }
+  tmp2 := { tmp2 with w1 := (res.w1 &&& (0x7fffffffffffffff : UInt64)) }
+  tmp2 := { tmp2 with w0 := res.w0 }
+  tmp3 := { tmp3 with w1 := res.w1 }
+  tmp3 := { tmp3 with w0 := res.w0 }
+  tmp_fpsf := pfpsf
+  let t__5 ← bid128_quiet_greater tmp1 tmp2 pfpsf
+  pfpsf := t__5.2
+  res1 := t__5.1
+  let t__6 ← bid128_quiet_not_equal xnswp tmp3 pfpsf
+  pfpsf := t__6.2
+  res2 := t__6.1
+  pfpsf := tmp_fpsf
+  if (res1 && res2) then
+    pfpsf := (pfpsf ||| c_StatusFlags_BID_INEXACT_EXCEPTION)
+    pfpsf := (pfpsf ||| c_StatusFlags_BID_UNDERFLOW_EXCEPTION)
+  return (res, pfpsf)
+
+set_option maxRecDepth 8000 in
+/-- `bid128_nextafter` is the chain of the stages -/
+theorem nextafter_shape (x y : U128) (f : UInt32) : bid128_nextafter x y f =
+    naFrontK x y f (fun x' y' => naCanonK x' (fun x'' => naChooseK x'' y' x y f (fun res f' => naFlags x'' x res f'))) := by
+  simp only [bid128_nextafter, naFrontK, naCanonK, naChooseK, naFlags, bind, Except.bind, pure, Except.pure]
+
+/-! ### spec-level facts used by `bid128_nextafter` -/
+
+theorem setSign_WF (s : Bool) {d : Datum} (h : d.WF) : (d.setSign s).WF := by
+  cases d <;> exact h
+
+theorem negate_WF {d : Datum} (h : d.WF) : d.negate.WF := setSign_WF _ h
+
+theorem nextUpD_WF {d : Datum} (h : d.WF) : (nextUpD d).WF := by
+  cases d with
+  | fin s c e =>
+    by_cases hc : c = 0
+    · subst hc; rw [nextUpD_zero]; decide
+    · rcases Dec.C17Adjacent.nextUp_representable s c e hc h with ⟨s', c', e', h1, h2⟩ | h1
+      · rw [h1]; exact h2
+      · rw [h1]; trivial
+  | inf s => cases s <;> decide
+  | nan s g p => exact h
+
+theorem nextDownD_WF {d : Datum} (h : d.WF) : (nextDownD d).WF := negate_WF (nextUpD_WF (negate_WF h))
+
+theorem bitsOf_ofBits_encode {d : Datum} (h : d.WF) : bitsOf (ofBits (encode d)) = encode d :=
+  Dec.C06GenFromInt.bitsOf_ofBits (encode_lt h)
+
+/-- the canonical encoding of a well-formed datum decodes to it -/
+theorem decode_ofBits_encode {d : Datum} (h : d.WF) : decode (bitsOf (ofBits (encode d))) = d := by
+  rw [bitsOf_ofBits_encode h, decode_encode h]
+
+theorem isFin_decodeW (h l : Nat) : (decodeW h l).isFin = !decide (h / 2^59 % 16 = 15) := by
+  rcases decodeW_kind h l with ⟨hN, s, p, hd⟩ | ⟨hN, hI, hd⟩ | ⟨hI, hz, e, hd⟩ | ⟨hI, hS, hlt, hpos, hd⟩ <;>
+  rw [hd] <;> simp only [Datum.isFin] <;> simp <;> omega
+
+/-- the special-bits test of the code: the operand is not finite -/
+theorem special_test_decode (R : U128) : (R.w1 &&& c_MASK_SPECIAL == c_MASK_SPECIAL) = !(decode (bitsOf R)).isFin := by
+  rw [special_test, decode_bitsOf, isFin_decodeW, Bool.not_not]
+
+/-- clearing bit 127 of a pattern clears the sign of the datum -/
+theorem decodeW_abs (h l : Nat) : decodeW (h % 2^63) l = (decodeW h l).setSign false := by
+  have e1 : h % 2^63 / 2^63 % 2 = 0 := by omega
+  have e2 : h % 2^63 / 2^59 % 16 = h / 2^59 % 16 := by omega
+  have e3 : h % 2^63 / 2^58 % 2 = h / 2^58 % 2 := by omega
+  have e4 : h % 2^63 / 2^57 % 2 = h / 2^57 % 2 := by omega
+  have e5 : h % 2^63 % 2^46 = h % 2^46 := by omega
+  have e6 : h % 2^63 / 2^61 % 4 = h / 2^61 % 4 := by omega
+  have e7 : h % 2^63 / 2^47 % 2^14 = h / 2^47 % 2^14 := by omega
+  have e8 : h % 2^63 % 2^49 = h % 2^49 := by omega
+  have e9 : h % 2^63 / 2^49 % 2^14 = h / 2^49 % 2^14 := by omega
+  unfold decodeW
+  simp only [e1, e2, e3, e4, e5, e6, e7, e8, e9]
+  split
+  · split <;> rfl
+  · split <;> rfl
+
+theorem abs_toNat (w : UInt64) : (w &&& 0x7fffffffffffffff).toNat = w.toNat % 2^63 := by
+  rw [UInt64.toNat_and, show (0x7fffffffffffffff : UInt64).toNat = 2^63 - 1 from rfl, Nat.and_two_pow_sub_one_eq_mod]
+
+theorem decode_abs (R : U128) :
+    decode (bitsOf ⟨R.w0, R.w1 &&& 0x7fffffffffffffff⟩) = (decode (bitsOf R)).setSign false := by
+  rw [decode_bitsOf, decode_bitsOf, abs_toNat, decodeW_abs]
+
+/-- the least positive normal number `10^33 · 10^−6176`, as the code writes it -/
+theorem decode_minNormal : decode (bitsOf ⟨0x38c15b0a00000000, 0x314dc6448d93⟩) = .fin false P33 (-6176) := by
+  decide +kernel
+
+theorem scaled_lt_iff (c k n : Nat) (hc : 0 < c) : c * 10 ^ k < 10 ^ n ↔ ndigits c + k ≤ n := by
+  obtain ⟨h1, h2⟩ := ndigits_spec hc
+  have hq := ndigits_pos hc
+  constructor
+  · intro h
+    by_contra hcon
+    have : 10 ^ n ≤ c * 10 ^ k :=
+      calc 10 ^ n ≤ 10 ^ (ndigits c - 1 + k) := Nat.pow_le_pow_right (by decide) (by omega)
+        _ = 10 ^ (ndigits c - 1) * 10 ^ k := Nat.pow_add _ _ _
+        _ ≤ c * 10 ^ k := Nat.mul_le_mul_right _ h1
+    omega
+  · intro h
+    calc c * 10 ^ k < 10 ^ ndigits c * 10 ^ k := Nat.mul_lt_mul_of_pos_right h2 (Nat.pow_pos (by decide))
+      _ = 10 ^ (ndigits c + k) := (Nat.pow_add _ _ _).symm
+      _ ≤ 10 ^ n := Nat.pow_le_pow_right (by decide) h
+
+/-- the result is a zero or below the least normal number in magnitude (`tinyRes` of `nextAfterD`) -/
+def tinyD : Datum → Bool
+  | .fin _ c e => c == 0 || adjExp c e < -6143
+  | _ => false
+
+/-- the code's test "least normal number > |result|" is the model's "result is tiny" -/
+theorem tiny_iff (r : Datum) (h : r.WF) :
+    (cmpD (.fin false P33 (-6176)) (r.setSign false) == some .gt) = tinyD r := by
+  cases r with
+  | fin s c e =>
+    obtain ⟨hc, he1, he2⟩ := h
+    simp only [eMin] at he1
+    simp only [Datum.setSign, cmpD, tinyD, beq_some_gt, cmpFin, if_pos he1]
+    rw [show ((-6176 : Int) - -6176).toNat = 0 from rfl, Nat.pow_zero, Nat.mul_one, Bool.eq_iff_iff]
+    simp only [sInt, Bool.false_eq_true, if_false, decide_eq_true_eq, Int.compare_eq_gt, Bool.or_eq_true, beq_iff_eq]
+    unfold adjExp
+    generalize hk : (e - -6176).toNat = k
+    by_cases h0 : c = 0
+    · subst h0
+      simp only [Nat.zero_mul, true_or, iff_true, P33]
+      decide
+    · have hpos : 0 < c := Nat.pos_of_ne_zero h0
+      have key := scaled_lt_iff c k 33 hpos
+      have e33 : P33 = 10 ^ 33 := by decide
+      rw [e33]
+      constructor
+      · intro hlt
+        right
+        have : c * 10 ^ k < 10 ^ 33 := by exact_mod_cast hlt
+        have := key.1 this
+        omega
+      · rintro (h1 | h1)
+        · exact absurd h1 h0
+        · have : ndigits c + k ≤ 33 := by omega
+          exact_mod_cast key.2 this
+  | inf s => cases s <;> rfl
+  | nan s g p => rfl
+
+
+theorem u128_eta (r : U128) : (⟨r.w0, r.w1⟩ : U128) = r := rfl
+
+/-- the status word `bid128_nextafter` returns, from the datum `dX` of the (canonicalised) operand, the datum `dx` of the
+operand as given, and the datum `r` of the result -/
+def afterFlagsOf (f : UInt32) (dX dx r : Datum) : UInt32 :=
+  if (dX.isFin && !r.isFin) = true then
+    if (cmpD (.fin false P33 (-6176)) (r.setSign false) == some .gt && !(cmpD dx r == some .eq)) = true then
+      f ||| 0x20 ||| 8 ||| 0x20 ||| 0x10
+    else f ||| 0x20 ||| 8
+  else
+    if (cmpD (.fin false P33 (-6176)) (r.setSign false) == some .gt && !(cmpD dx r == some .eq)) = true then
+      f ||| 0x20 ||| 0x10
+    else f
+
+/-- **the flag stage**, all patterns: the result is passed through, the status word is `afterFlagsOf` -/
+theorem naFlags_spec (X x res : U128) (f : UInt32) :
+    naFlags X x res f =
+      .ok (res, afterFlagsOf f (decode (bitsOf X)) (decode (bitsOf x)) (decode (bitsOf res))) := by
+  simp only [naFlags, bind, Except.bind, pure, Except.pure, bne, quiet_greater_spec, quiet_not_equal_spec, special_test_decode,
+    decode_abs, decode_minNormal, u128_eta, Bool.not_not, afterFlagsOf]
+  split <;> split <;> rfl
+
+theorem isInf_of_not_fin {r : Datum} (hn : r.isNaN = false) : (!r.isFin) = r.isInf := by
+  cases r <;> first | rfl | exact Bool.noConfusion hn
+
+theorem tinyD_eq (r : Datum) : (match r with | .fin _ c e => c == 0 || adjExp c e < -6143 | _ => false) = tinyD r := by
+  cases r <;> rfl
+
+/-- the status word of the code is the incoming word with the model's flags or-ed in -/
+theorem afterFlagsOf_model (f : UInt32) (dx dy : Datum) (hx : dx.WF)
+    (hr : ((nextAfterD dx dy).1).isNaN = false) (hw : ((nextAfterD dx dy).1).WF) :
+    afterFlagsOf f dx dx (nextAfterD dx dy).1 = f ||| UInt32.ofNat (nextAfterD dx dy).2 := by
+  have h2 : (nextAfterD dx dy).2 =
+      (if (dx.isFin && (nextAfterD dx dy).1.isInf) = true then fOverflow ||| fInexact
+       else if ((cmpD dx (nextAfterD dx dy).1 != some .eq) && tinyD (nextAfterD dx dy).1) = true then fUnderflow ||| fInexact else 0) := by
+    unfold nextAfterD
+    rcases cmpD dx dy with _ | (_ | _ | _) <;> simp only []
+    · generalize Datum.setSign dy.neg dx = R; cases R <;> rfl
+    · generalize nextUpD dx = R; cases R <;> rfl
+    · generalize Datum.setSign dy.neg dx = R; cases R <;> rfl
+    · generalize nextDownD dx = R; cases R <;> rfl
+  rw [h2]
+  generalize (nextAfterD dx dy).1 = r at *
+  unfold afterFlagsOf
+  rw [isInf_of_not_fin hr, tiny_iff r hw]
+  by_cases ho : (dx.isFin && r.isInf) = true
+  · rw [if_pos ho, if_pos ho]
+    have : tinyD r = false := by
+      cases r <;> simp_all [Datum.isInf, tinyD]
+    rw [this, Bool.false_and, if_neg Bool.false_ne_true, UInt32.or_assoc]
+    rfl
+  · rw [if_neg ho, if_neg ho, Bool.and_comm, bne]
+    split
+    · rw [UInt32.or_assoc]; rfl
+    · exact (UInt32.or_zero).symm
+
+
+/-- **the choice of the result**, non-NaN operands: `x` with the sign of `y` when they compare equal, else
+`next_down x` / `next_up x`; the status word is handed on unchanged -/
+theorem naChooseK_spec (X y' x y : U128) (f : UInt32) (k : U128 → UInt32 → Except String (U128 × UInt32))
+    (hx : (decode (bitsOf x)).isNaN = false) :
+    naChooseK X y' x y f k =
+      k (if (cmpD (decode (bitsOf x)) (decode (bitsOf y)) == some .eq) = true then
+           ⟨X.w0, X.w1 &&& 0x7fffffffffffffff ||| y'.w1 &&& 0x8000000000000000⟩
+         else if (cmpD (decode (bitsOf x)) (decode (bitsOf y)) == some .gt) = true then
+           ofBits (encode (nextDownD (decode (bitsOf x))))
+         else ofBits (encode (nextUpD (decode (bitsOf x))))) f := by
+  simp only [naChooseK, bind, Except.bind, pure, Except.pure, quiet_equal_spec, quiet_greater_spec,
+    nextdown_nonnan x f hx, nextup_nonnan x f hx]
+  split
+  · rfl
+  · split <;> rfl
+
+
+theorem snan_decode (x : U128) : (x.w1 &&& c_MASK_SNAN == c_MASK_SNAN) = (decode (bitsOf x)).isSNaN := by
+  rw [show c_MASK_SNAN = 0x7e00000000000000 from rfl, snan_test, decode_bitsOf, isSNaN_decodeW]
+
+theorem snan_masked (w : UInt64) :
+    (w &&& 0xffffc00000000000 &&& c_MASK_SNAN == c_MASK_SNAN) = (w &&& c_MASK_SNAN == c_MASK_SNAN) := by
+  rw [show c_MASK_SNAN = 0x7e00000000000000 from rfl, snan_test, snan_test, payclr_toNat, decide_eq_decide]
+  omega
+
+theorem nan_decode (x : U128) : (x.w1 &&& c_MASK_NAN == c_MASK_NAN) = (decode (bitsOf x)).isNaN := by
+  rw [show c_MASK_NAN = 0x7c00000000000000 from rfl, nan_test, decode_bitsOf, isNaN_decodeW]
+
+theorem nan_special (w : UInt64) (h : (w &&& c_MASK_NAN == c_MASK_NAN) = true) :
+    (w &&& c_MASK_SPECIAL == c_MASK_SPECIAL) = true := by
+  rw [show c_MASK_NAN = 0x7c00000000000000 from rfl, nan_test] at h
+  rw [special_test]
+  simp only [decide_eq_true_eq] at h ⊢
+  omega
+
+theorem ok_fst {α β ε : Type} {a a' : α} {b b' : β} (h : (Except.ok (a, b) : Except ε (α × β)) = Except.ok (a', b')) : a = a' := by
+  injection h with h; exact (Prod.mk.inj h).1
+
+/-- **a NaN first operand** of `bid128_nextafter`: its quieted canonical copy; `invalid` iff some operand is signalling -/
+theorem naFront_nanx (x y : U128) (f : UInt32) (k : U128 → U128 → Except String (U128 × UInt32))
+    (hN : (decode (bitsOf x)).isNaN = true) :
+    naFrontK x y f k = .ok (ofBits (encode (quietNaN (decode (bitsOf x)))),
+      if ((decode (bitsOf x)).isSNaN || (decode (bitsOf y)).isSNaN) = true then f ||| 1 else f) := by
+  have hN' : (x.w1 &&& c_MASK_NAN == c_MASK_NAN) = true := by rw [nan_decode]; exact hN
+  have hb : x.w1.toNat / 2^58 % 32 = 31 := by
+    rw [show c_MASK_NAN = 0x7c00000000000000 from rfl, nan_test] at hN'; simpa using hN'
+  have H := specialK_nan true x f hb
+  unfold specialK at H
+  unfold naFrontK
+  simp only [bind, Except.bind, pure, Except.pure]
+  rw [if_pos hN'] at H
+  rw [if_pos (by rw [nan_special _ hN']; rfl), if_pos hN']
+  simp only [snan_masked, snan_decode, c_StatusFlags_BID_INVALID_EXCEPTION, c_DEC_FE_INVALID] at H ⊢
+  split at H
+  · rename_i hbig
+    rw [if_pos hbig]
+    cases hsx : (decode (bitsOf x)).isSNaN
+    · rw [hsx] at H
+      simp only [Bool.false_eq_true, if_false] at H
+      rw [ok_fst H]
+      simp only [Bool.false_eq_true, if_false, Bool.false_or]
+      split <;> rfl
+    · rw [hsx] at H
+      simp only [if_true] at H
+      rw [ok_fst H]
+      simp only [if_true, Bool.true_or]
+  · rename_i hbig
+    rw [if_neg hbig]
+    cases hsx : (decode (bitsOf x)).isSNaN
+    · rw [hsx] at H
+      simp only [Bool.false_eq_true, if_false] at H
+      rw [ok_fst H]
+      simp only [Bool.false_eq_true, if_false, Bool.false_or]
+      split <;> rfl
+    · rw [hsx] at H
+      simp only [if_true] at H
+      rw [ok_fst H]
+      simp only [if_true, Bool.true_or]
+
+/-- **a NaN second operand** (the first one not a NaN): its quieted canonical copy; `invalid` iff it is signalling -/
+theorem naFront_nany (x y : U128) (f : UInt32) (k : U128 → U128 → Except String (U128 × UInt32))
+    (hx : (decode (bitsOf x)).isNaN = false) (hN : (decode (bitsOf y)).isNaN = true) :
+    naFrontK x y f k = .ok (ofBits (encode (quietNaN (decode (bitsOf y)))), nanFlags f (decode (bitsOf y))) := by
+  have hx' : ¬ (x.w1 &&& c_MASK_NAN == c_MASK_NAN) = true := by rw [nan_decode, hx]; exact Bool.false_ne_true
+  have hN' : (y.w1 &&& c_MASK_NAN == c_MASK_NAN) = true := by rw [nan_decode]; exact hN
+  have hb : y.w1.toNat / 2^58 % 32 = 31 := by
+    rw [show c_MASK_NAN = 0x7c00000000000000 from rfl, nan_test] at hN'; simpa using hN'
+  rw [← specialK_nan true y f hb]
+  unfold specialK naFrontK
+  simp only [bind, Except.bind, pure, Except.pure]
+  rw [if_pos (by rw [nan_special _ hN', Bool.or_true]), if_neg hx', if_pos hN', if_pos hN']
+
+
+/-- an infinite operand is replaced by the canonical infinity of its sign -/
+def infCanon (x : U128) : U128 :=
+  if (x.w1 &&& c_MASK_ANY_INF == c_MASK_INF) = true then ⟨0, x.w1 &&& (c_MASK_SIGN ||| c_MASK_INF)⟩ else x
+
+theorem anyinf_test (w : UInt64) : (w &&& c_MASK_ANY_INF == c_MASK_INF) = decide (w.toNat / 2^58 % 32 = 30) :=
+  Dec.C06GenFromInt.test_field w _ _ 5 58 30 (by rfl) (by rfl)
+
+/-- **no NaN operand**: `bid128_nextafter` goes on with the operands, infinities made canonical -/
+theorem naFront_nonnan (x y : U128) (f : UInt32) (k : U128 → U128 → Except String (U128 × UInt32))
+    (hx : (decode (bitsOf x)).isNaN = false) (hy : (decode (bitsOf y)).isNaN = false) :
+    naFrontK x y f k = k (infCanon x) (infCanon y) := by
+  have hx' : ¬ (x.w1 &&& c_MASK_NAN == c_MASK_NAN) = true := by rw [nan_decode, hx]; exact Bool.false_ne_true
+  have hy' : ¬ (y.w1 &&& c_MASK_NAN == c_MASK_NAN) = true := by rw [nan_decode, hy]; exact Bool.false_ne_true
+  unfold naFrontK
+  simp only [bind, Except.bind, pure, Except.pure]
+  by_cases hsp : (x.w1 &&& c_MASK_SPECIAL == c_MASK_SPECIAL || y.w1 &&& c_MASK_SPECIAL == c_MASK_SPECIAL) = true
+  · rw [if_pos hsp, if_neg hx', if_neg hy']
+    unfold infCanon
+    split <;> split <;> rfl
+  · rw [if_neg hsp]
+    rw [special_test, special_test] at hsp
+    simp only [Bool.or_eq_true, decide_eq_true_eq, not_or] at hsp
+    unfold infCanon
+    rw [anyinf_test, anyinf_test, if_neg (by simp only [decide_eq_true_eq]; omega),
+      if_neg (by simp only [decide_eq_true_eq]; omega)]
+
+theorem shl2_exp (w : UInt64) : (w <<< 2 &&& c_MASK_EXP).toNat = (w.toNat / 2^47 % 2^14) * 2^49 := by
+  have := w.toNat_lt
+  rw [exp_toNat, UInt64.toNat_shiftLeft, show (2 : UInt64).toNat % 64 = 2 from by decide, Nat.shiftLeft_eq]
+  omega
+
+theorem or2 (S E : Nat) (hE : E < 2^14) : S * 2^63 ||| E * 2^49 = S * 2^63 + E * 2^49 :=
+  Dec.C06GenFromInt.or_disjoint S (E * 2^49) 63 (by omega)
+
+theorem encode_fin_words (s : Bool) (c E : Nat) :
+    encode (.fin s c ((E : Int) - 6176)) = (if s then 1 else 0) * 2^127 + E * 2^113 + c := by
+  have : (((E : Int) - 6176 + 6176).toNat) = E := by omega
+  cases s <;> simp only [encode, signBit, this, Bool.false_eq_true, if_true, if_false] <;> omega
+
+theorem naCanonK_inf (X : U128) (k : U128 → Except String (U128 × UInt32)) (hI : X.w1.toNat / 2^58 % 32 = 30) :
+    naCanonK X k = k X := by
+  unfold naCanonK
+  simp only [bind, Except.bind, pure, Except.pure, bne]
+  rw [if_neg (by rw [anyinf_test]; simpa using hI)]
+
+theorem naCanonK_fin (x : U128) (k : U128 → Except String (U128 × UInt32)) (hF : x.w1.toNat / 2^59 % 16 ≠ 15) :
+    naCanonK x k = k (ofBits (encode (decode (bitsOf x)))) := by
+  have hh := x.w1.toNat_lt
+  have hl := x.w0.toNat_lt
+  have hI : ¬ x.w1.toNat / 2^58 % 32 = 30 := by omega
+  unfold naCanonK
+  delta c_MASK_COEFF
+  simp only [bind, Except.bind, pure, Except.pure, bne]
+  rw [decode_bitsOf, if_pos (by rw [anyinf_test]; simpa using hI)]
+  simp only [steer_test, gt128, coeff_hi, UInt64.toNat_ofNat]
+  by_cases hS : x.w1.toNat / 2^61 % 4 = 3
+  · rw [if_pos (by simpa using hS)]
+    have hd : decodeW x.w1.toNat x.w0.toNat = .fin (decide (x.w1.toNat / 2^63 % 2 = 1)) 0 ((x.w1.toNat / 2^47 % 2^14 : Nat) - (6176 : Int)) := by
+      unfold decodeW; rw [if_neg hF, if_pos hS]
+    rw [hd, encode_fin_words]
+    refine congrArg k ?_
+    apply eq_ofBits
+    simp only [bitsOf, UInt64.toNat_or, shl2_exp, UInt64.toNat_zero]
+    rw [show c_MASK_SIGN = 0x8000000000000000 from rfl, sign_toNat, or2 _ _ (by omega)]
+    split <;> rename_i hs <;> simp only [decide_eq_true_eq] at hs <;> omega
+  · rw [if_neg (by simpa using hS)]
+    by_cases hP : P34 ≤ x.w1.toNat % 2^49 * 2^64 + x.w0.toNat
+    · rw [if_pos (by simp only [decide_eq_true_eq, P34] at hP ⊢; omega)]
+      have hd : decodeW x.w1.toNat x.w0.toNat = .fin (decide (x.w1.toNat / 2^63 % 2 = 1)) 0 ((x.w1.toNat / 2^49 % 2^14 : Nat) - (6176 : Int)) := by
+        unfold decodeW; rw [if_neg hF, if_neg hS, if_neg (by omega)]
+      rw [hd, encode_fin_words]
+      refine congrArg k ?_
+      apply eq_ofBits
+      simp only [bitsOf, UInt64.toNat_or, exp_toNat, UInt64.toNat_zero]
+      rw [show c_MASK_SIGN = 0x8000000000000000 from rfl, sign_toNat, or2 _ _ (by omega)]
+      split <;> rename_i hs <;> simp only [decide_eq_true_eq] at hs <;> omega
+    · rw [if_neg (by simp only [decide_eq_true_eq, P34] at hP ⊢; omega)]
+      have hd : decodeW x.w1.toNat x.w0.toNat = .fin (decide (x.w1.toNat / 2^63 % 2 = 1)) (x.w1.toNat % 2^49 * 2^64 + x.w0.toNat) ((x.w1.toNat / 2^49 % 2^14 : Nat) - (6176 : Int)) := by
+        unfold decodeW; rw [if_neg hF, if_neg hS, if_pos (by omega)]
+      rw [hd, encode_fin_words]
+      refine congrArg k ?_
+      apply eq_ofBits
+      have := hi_fields _ hh
+      simp only [bitsOf]
+      split <;> rename_i hs <;> simp only [decide_eq_true_eq] at hs <;> omega
+
+/-- **canonical operand**: after the two canonicalisation stages the first operand is the canonical encoding of its datum -/
+theorem naCanon_spec (x : U128) (k : U128 → Except String (U128 × UInt32)) (hx : (decode (bitsOf x)).isNaN = false) :
+    naCanonK (infCanon x) k = k (ofBits (encode (decode (bitsOf x)))) := by
+  have hh := x.w1.toNat_lt
+  have hN : x.w1.toNat / 2^58 % 32 ≠ 31 := by
+    rw [decode_bitsOf, isNaN_decodeW] at hx; simpa using hx
+  by_cases hI : x.w1.toNat / 2^58 % 32 = 30
+  · have hc : infCanon x = ⟨0, x.w1 &&& (c_MASK_SIGN ||| c_MASK_INF)⟩ := by
+      unfold infCanon; rw [if_pos (by rw [anyinf_test]; simpa using hI)]
+    have hX : ((⟨0, x.w1 &&& (c_MASK_SIGN ||| c_MASK_INF)⟩ : U128).w1).toNat = (x.w1.toNat / 2^59 % 32) * 2^59 :=
+      toNat_and_field x.w1 _ 5 59 (by decide)
+    rw [hc, naCanonK_inf _ _ (by rw [hX]; omega), decode_bitsOf, decodeW_inf _ _ (by omega) hN]
+    refine congrArg k ?_
+    apply eq_ofBits
+    simp only [bitsOf, hX, UInt64.toNat_zero, encode, signBit]
+    split <;> rename_i hs <;> simp only [decide_eq_true_eq] at hs <;> omega
+  · have hc : infCanon x = x := by
+      unfold infCanon; rw [if_neg (by rw [anyinf_test]; simpa using hI)]
+    rw [hc, naCanonK_fin x k (by omega)]
+
 end Dec.C17GenNext
